@@ -122,6 +122,10 @@ func (g *Gen) NLV() ap.NaturalLanguageValues {
 	for i := 0; i < n; i++ {
 		out = append(out, ap.LangRefValue{Ref: langTags[(off+i)%len(langTags)], Value: ap.Content(g.text())})
 	}
+	if rapid.IntRange(0, 3).Draw(g.T, "untagged-in-map") == 0 {
+		// an untagged default value next to tagged translations, at any position
+		out[rapid.IntRange(0, n-1).Draw(g.T, "untagged-at")].Ref = ap.NilLangRef
+	}
 	return out
 }
 
